@@ -4,8 +4,11 @@ import driver
 
 def run(ctx):
     b = ctx.build("internal/streams/dns")
-    n = 1 if ctx.replay else 16
-    ctx.run_shards(b, "TestVerifC09", n, 600 if ctx.tier == "quick" else 3000, "c09")
+    scale = {}
+    if ctx.replay:
+        ctx.run_shards(b, "TestVerifC09", 1, 600, "c09")
+    else:
+        scale = driver.run_scaled(ctx, b, "TestVerifC09", 16, 3000, "c09")
     return driver.finish(
         ctx, "exploration",
         "for each request type the client forms (version, options, packet with data, packet without data, upstream-codec probe "
